@@ -162,7 +162,11 @@ func (w *World) buildRequest(ctx context.Context, rq *Rq) (*http.Request, error)
 		ccLines = w.con.renderCC(w.con.reqDirectives(rq), rq.Sp)
 	}
 	for _, l := range ccLines {
-		req.Header.Add("Cache-Control", l)
+		if rq.RawKeys == 2 {
+			req.Header["cache-control"] = append(req.Header["cache-control"], l)
+		} else {
+			req.Header.Add("Cache-Control", l)
+		}
 	}
 	if rq.Range == 1 {
 		// any Range field makes it a range request, whatever the unit and its spelling
@@ -170,10 +174,11 @@ func (w *World) buildRequest(ctx context.Context, rq *Rq) (*http.Request, error)
 	}
 	for f, cl := range rq.Sel {
 		if cl > 0 && f < len(SelFields) {
-			if rq.RawKeys == 1 {
-				req.Header[strings.ToLower(SelFields[f])] = []string{selValue(f, cl, rq.SelSp)}
+			vals := strings.Split(selValue(f, cl, rq.SelSp), "\n") // a value class may be several field lines
+			if rq.RawKeys >= 1 {
+				req.Header[strings.ToLower(SelFields[f])] = vals
 			} else {
-				req.Header.Set(SelFields[f], selValue(f, cl, rq.SelSp))
+				req.Header[SelFields[f]] = vals
 			}
 		}
 	}
@@ -252,7 +257,11 @@ func (w *World) headerMeaning(h http.Header) M {
 		}
 	}
 	out["vary"], out["vs"] = []int{}, 0
-	if v := h.Get("Vary"); v != "" {
+	if vv := h.Values("Vary"); len(vv) > 0 {
+		v := vv[0]
+		if len(vv) > 1 {
+			v += "\x00multi"
+		}
 		if f, ok := w.varyTab[v]; ok {
 			if len(f) == 1 && f[0] == -1 {
 				out["vs"] = 1
@@ -456,7 +465,7 @@ func (r *runner) doReqX(st *Step, x int) {
 				if cacheOwn[k] || k == "Content-Length" {
 					continue
 				}
-				if k == "X-Secret" || k == "Etag" && strings.Contains(strings.Join(want["Cache-Control"], ","), `"ETag, X-Secret"`) {
+				if k == "X-Secret" || k == "Etag" && strings.Contains(strings.ToLower(strings.Join(want["Cache-Control"], ",")), `"etag, x-secret"`) {
 					continue // may be stripped under qualified no-cache
 				}
 				if !reflect.DeepEqual(resp.Header[k], v) {
